@@ -194,6 +194,8 @@ def _literal_tables(tree: ast.Module) -> None:
                     stores[nm] = 2
             if isinstance(n, ast.Assign) and len(n.targets) == 1 and isinstance(n.targets[0], ast.Name) and isinstance(n.value, (ast.Tuple, ast.List)):
                 val[n.targets[0].id] = n.value
+            if isinstance(n, ast.AnnAssign) and isinstance(n.target, ast.Name) and isinstance(n.value, (ast.Tuple, ast.List)):
+                val[n.target.id] = n.value  # `_TABLE: Tuple[...] = (...)`
         out = {}
         for nm, v in val.items():
             if stores.get(nm) != 1:
@@ -278,6 +280,8 @@ def _literal_tables(tree: ast.Module) -> None:
                     if pure(x):
                         continue
                     n_use = uses(node.key, t.id) + uses(node.value, t.id)  # type: ignore[attr-defined]
+                    if n_use == 0:
+                        continue  # the element is not used at all (`for _, tag, _, fn in TABLE`)
                     if inner or n_use != 1:
                         return None
         if not rows:
@@ -521,6 +525,113 @@ def _desugar_match(tree: ast.Module) -> None:
 
     if hasattr(ast, "Match"):
         _T().visit(tree)
+
+
+def _unroll_table_loops(tree: ast.Module) -> None:
+    """`for cls, tag, enc, _ in TABLE: if isinstance(value, cls): return f(tag, enc(value))` over a module- / class-level table
+    of literal rows (<= 16 rows of equal width, no break / continue / else, targets never re-bound) is read as the if-chain it
+    runs: one copy of the body per row with the row's elements substituted, and a lambda element applied to a plain argument
+    is beta-reduced (`(lambda v: v.isoformat())(value)` -> `value.isoformat()`).  Nothing is decided here."""
+    import copy
+    tables: Dict[str, ast.AST] = {}
+    scopes = [tree.body] + [c.body for c in tree.body if isinstance(c, ast.ClassDef)]
+    counts: Dict[str, int] = {}
+    for body in scopes:
+        for st in body:
+            tg = None
+            if isinstance(st, ast.Assign) and len(st.targets) == 1 and isinstance(st.targets[0], ast.Name):
+                tg, val = st.targets[0].id, st.value
+            elif isinstance(st, ast.AnnAssign) and isinstance(st.target, ast.Name) and st.value is not None:
+                tg, val = st.target.id, st.value
+            if tg is None:
+                continue
+            counts[tg] = counts.get(tg, 0) + 1
+            if isinstance(val, (ast.Tuple, ast.List)) and 1 <= len(val.elts) <= 16 and all(
+                    isinstance(r, ast.Tuple) and len(r.elts) == len(val.elts[0].elts) for r in val.elts if isinstance(val.elts[0], ast.Tuple)) \
+                    and all(isinstance(r, ast.Tuple) for r in val.elts):
+                tables[tg] = val
+    tables = {k: v for k, v in tables.items() if counts.get(k) == 1}
+    if not tables:
+        return
+
+    def atom(e: ast.AST) -> bool:
+        return isinstance(e, (ast.Constant, ast.Name)) or (isinstance(e, ast.Attribute) and atom(e.value))
+
+    class _Beta(ast.NodeTransformer):
+        def visit_Call(self, node):  # type: ignore[no-untyped-def]
+            self.generic_visit(node)
+            f_ = node.func
+            if isinstance(f_, ast.Lambda) and not node.keywords and not f_.args.vararg and not f_.args.kwarg and not f_.args.kwonlyargs \
+                    and not f_.args.defaults and len(f_.args.args) == len(node.args) and all(atom(a) for a in node.args):
+                env = {p.arg: a for p, a in zip(f_.args.args, node.args)}
+
+                class _S(ast.NodeTransformer):
+                    def visit_Name(s_, x):  # type: ignore[no-untyped-def]  # noqa: N805
+                        if isinstance(x.ctx, ast.Load) and x.id in env:
+                            return ast.copy_location(copy.deepcopy(env[x.id]), x)
+                        return x
+
+                    def visit_Lambda(s_, x):  # type: ignore[no-untyped-def]  # noqa: N805
+                        return x  # no capture games
+                return ast.copy_location(_S().visit(copy.deepcopy(f_.body)), node)
+            return node
+
+    class _T(ast.NodeTransformer):
+        depth = 0
+        local_stores: List[set] = []
+
+        def visit_FunctionDef(self, node):  # type: ignore[no-untyped-def]
+            stores = {x.id for x in ast.walk(node) if isinstance(x, ast.Name) and not isinstance(x.ctx, ast.Load)}
+            stores |= {a.arg for a in node.args.posonlyargs + node.args.args + node.args.kwonlyargs}
+            self.local_stores.append(stores)
+            self.depth += 1
+            self.generic_visit(node)
+            self.depth -= 1
+            self.local_stores.pop()
+            return node
+
+        visit_AsyncFunctionDef = visit_FunctionDef
+
+        def visit_For(self, node):  # type: ignore[no-untyped-def]
+            self.generic_visit(node)
+            if not self.depth or node.orelse:
+                return node
+            it = node.iter
+            nm = it.id if isinstance(it, ast.Name) else (it.attr if isinstance(it, ast.Attribute) and isinstance(it.value, ast.Name)
+                                                         and it.value.id in ("self", "cls") else None)
+            if nm is None or nm not in tables or (isinstance(it, ast.Name) and nm in self.local_stores[-1]):
+                return node
+            tbl = tables[nm]
+            tg = node.target
+            if not (isinstance(tg, ast.Tuple) and all(isinstance(t, ast.Name) for t in tg.elts) and len(tg.elts) == len(tbl.elts[0].elts)):
+                return node
+            tnames = [t.id for t in tg.elts]
+            for st in node.body:
+                for x in ast.walk(st):
+                    if isinstance(x, (ast.Break, ast.Continue, ast.FunctionDef, ast.AsyncFunctionDef, ast.ClassDef, ast.Yield, ast.YieldFrom, ast.NamedExpr)):
+                        return node
+                    if isinstance(x, ast.Name) and x.id in tnames and not isinstance(x.ctx, ast.Load):
+                        return node
+                    if isinstance(x, ast.Lambda) and any(a.arg in tnames for a in x.args.args):
+                        return node
+            out = []
+            for row in tbl.elts:
+                env = dict(zip(tnames, row.elts))
+
+                class _S(ast.NodeTransformer):
+                    def visit_Name(s_, x):  # type: ignore[no-untyped-def]  # noqa: N805
+                        if isinstance(x.ctx, ast.Load) and x.id in env and x.id != "_":
+                            return ast.copy_location(copy.deepcopy(env[x.id]), x)
+                        return x
+                for st in node.body:
+                    new = _Beta().visit(_S().visit(copy.deepcopy(st)))
+                    ast.copy_location(new, st)
+                    out.append(new)
+            for x in out:
+                ast.fix_missing_locations(x)
+            return out
+
+    _T().visit(tree)
 
 
 def _specialise_constant_dispatch(tree: ast.Module, modname: str, known: Optional[set]) -> None:
@@ -860,6 +971,7 @@ class Program:
         for fn, path, src, tree in parsed:
             _desugar_match(tree)
             _plain_local_assignments(tree)
+            _unroll_table_loops(tree)
             _literal_tables(tree)
             _record_field_aliases(tree, records)
             modname = f"{PKG}.{fn[:-3]}" if fn != "__init__.py" else PKG
